@@ -396,7 +396,7 @@ theorem lex_positions (src : Bytes) : ∀ tp ∈ lexAll src, tp.ok2 := L4.lexAll
 /-- **Statement positions are first-token positions**: in every tree the parser builds, the
     position of a statement is the position of its first token (`!` included); the left operand of
     a negated pipeline (`! a | b`: the `!` belongs to the pipeline) keeps the position of the `!`
-    (`Stmt.pk`; subshells and blocks are not entered; `Proofs/L4PosFirst.lean`). -/
+    (`Stmt.pk`, inside subshells and blocks as well; `Proofs/L4PosFirst.lean`). -/
 theorem stmt_positions (l : Lang) (src : Bytes) (f : File) (h : parse l src = .ok f) : f.stmts.pkAll :=
   L4.parse_pk l src f h
 
